@@ -93,6 +93,18 @@ def generate(seed: int, tier: str) -> Dict[str, Any]:
         while len(world["episodes"]) < 3:
             world["episodes"].append({"id": "epx%d" % len(world["episodes"]), "owner": "world", "text": " ".join(r.sample(E.VOCAB, 2)),
                                       "ts": E.iso_from_ms(E.T0_MS - 1000).replace("+00:00", "Z"), "vec": "text", "cluster": "c%d" % r.randint(0, 2)})
+        if r.chance(0.4):
+            # a family of rescaled copies of one vector: their cosines with any query agree to ~1e-8 and now and then to
+            # less than the 1e-9 quantum some merge paths rank by; ids are dealt in random order over the shards
+            base = " ".join(r.sample(E.VOCAB, 2))
+            fam = [{"id": "nd%02d" % i, "owner": "world", "text": base if i == 0 else " ".join(r.sample(E.VOCAB, 2)),
+                    "ts": E.iso_from_ms(E.T0_MS - 1000).replace("+00:00", "Z"),
+                    "vec": "text" if i == 0 else "near:%r:%s" % (round(r.uniform(0.2, 5.0), 6), base)} for i in range(r.randint(3, 7))]
+            r.shuffle(fam)
+            for i, e in enumerate(fam):
+                e["id"] = "nd%02d" % i
+            world["episodes"] = (world["episodes"] + fam)[-14:]
+            r.shuffle(world["episodes"])
         raw = E.valid_cfg(rng.stream("config"), ["t2"], p=0.5)
         raw.setdefault("t2", {}).setdefault("sim_threshold", r.choice([-1.0, -0.2, 0.0]))
         raw["t2"]["cache"] = {"enabled": False}
